@@ -101,17 +101,76 @@ fn check_sentence(out: &mut Out, text: &str, toks: &[Token], accepted: bool, par
     });
 }
 
+// What the front end did with one text, for the callers that have an expectation of their own.
+pub enum Seen {
+    TokErr,
+    Panic,
+    // accepted: the resolved tree in the notation of `resolve_ref::db_term` (only when asked for)
+    Accepted(String),
+    // rejected: the diagnostics in order
+    Rejected(Vec<Diag>),
+}
+
+#[derive(Clone, Debug, PartialEq)]
+pub enum DiagKind { AlreadyExists, NotInScope, DefinitionOrder, Other }
+
+#[derive(Clone, Debug, PartialEq)]
+pub struct Diag { pub kind: DiagKind, pub name: String, pub range: Option<(usize, usize)> }
+
+// "Variable `x` already exists." / "Variable `x` not in scope." (colours are off: names are in backticks)
+pub fn scope_diag(message: &str) -> (DiagKind, String) {
+    if let Some(p) = message.find("Variable `") {
+        let rest = &message[p + 10..];
+        if let Some(q) = rest.find('`') {
+            let tail = &rest[q + 1..];
+            if tail.starts_with(" already exists.") { return (DiagKind::AlreadyExists, rest[..q].to_owned()); }
+            if tail.starts_with(" not in scope.") { return (DiagKind::NotInScope, rest[..q].to_owned()); }
+        }
+    }
+    if message.contains("which will not be available in time during evaluation") { return (DiagKind::DefinitionOrder, String::new()); }
+    (DiagKind::Other, String::new())
+}
+
+// C15 ("for scoping errors the range is precisely the text of the offending identifier or
+// subexpression"): the range of a scope diagnostic about `x` is the identifier `x` itself -- for a
+// re-bound name exactly the binder's identifier, for an unbound name the identifier possibly with the
+// parentheses around it (a parenthesised variable is a subexpression whose range includes them).
+fn check_scope_range(out: &mut Out, text: &str, toks: &[Token], d: &Diag) {
+    let Some((a, b)) = d.range else { return; };
+    if a > b || b > text.len() || !text.is_char_boundary(a) || !text.is_char_boundary(b) { return; } // reported by the caller
+    let inside: Vec<&Token> = toks.iter().filter(|t| a <= t.source_range.start && t.source_range.end <= b).collect();
+    let idents: Vec<&&Token> = inside.iter().filter(|t| !matches!(t.variant, TV::LeftParen | TV::RightParen)).collect();
+    let is_x = idents.len() == 1 && matches!(&idents[0].variant, TV::Identifier(s) if *s == d.name.as_str());
+    let exact = &text[a..b] == d.name.as_str();
+    let good = match d.kind { DiagKind::AlreadyExists => exact, DiagKind::NotInScope => exact || (is_x && text[a..b].starts_with('(') && text[a..b].ends_with(')')), _ => true };
+    out.stat("scope-diag:range-checked");
+    if !good {
+        let kind = if d.kind == DiagKind::AlreadyExists { "rebound-name-diagnostic-does-not-point-at-the-binder-identifier" } else { "unbound-name-diagnostic-does-not-point-at-the-identifier" };
+        out.hit("C15", kind, text, &format!("variable `{}`: reported range {a}..{b} is the text `{}`", d.name, &text[a..b]));
+    }
+}
+
 pub fn check_text(out: &mut Out, names: &mut Ser, text: &str, ctx: &[&str], with_stats: bool) {
-    let toks = match guarded(|| tokenize(None, text)) { Ok(Ok(t)) => t, Ok(Err(_)) => { out.stat("parser:tok-err"); return; } Err(m) => { out.hit("C14", "tokenize-panic", text, &m); return; } };
+    check_text_ex(out, names, text, ctx, with_stats, false);
+}
+
+pub fn check_text_ex(out: &mut Out, names: &mut Ser, text: &str, ctx: &[&str], with_stats: bool, want_db: bool) -> Seen {
+    let toks = match guarded(|| tokenize(None, text)) { Ok(Ok(t)) => t, Ok(Err(_)) => { out.stat("parser:tok-err"); return Seen::TokErr; } Err(m) => { out.hit("C14", "tokenize-panic", text, &m); return Seen::Panic; } };
     let ts = toks_str(names, &toks);
     let cs = format!("({})", ctx.iter().map(|c| names.name(c).to_string()).collect::<Vec<_>>().join(" "));
     reset_hooks();
     let r = guarded(|| parse(None, text, &toks[..], ctx));
     let ranges: Vec<(usize, usize)> = LISTING_RANGES.with(|v| v.borrow().clone());
     let stats: [(usize, usize); 36] = CACHE_STATS.with(|s| *s.borrow());
+    let mut seen = Seen::Panic;
     let answer = match &r {
         Err(m) => { out.hit("C14", "parse-panic", text, m); "panic".to_owned() }
-        Ok(Ok(t)) => { out.stat("parser:ok"); check_sentence(out, text, &toks, true, false); format!("ok {}", ranged(names, t, &mut HashMap::new())) }
+        Ok(Ok(t)) => {
+            out.stat("parser:ok");
+            check_sentence(out, text, &toks, true, false);
+            seen = Seen::Accepted(if want_db { crate::resolve_ref::db_term(t) } else { String::new() });
+            format!("ok {}", ranged(names, t, &mut HashMap::new()))
+        }
         Ok(Err(es)) => {
             out.stat("parser:err");
             if es.is_empty() { out.hit("C14", "parse-empty-error-list", text, ""); }
@@ -124,6 +183,19 @@ pub fn check_text(out: &mut Out, names: &mut Ser, text: &str, ctx: &[&str], with
                     out.hit("C15", "diagnostic-range-outside-text", text, &format!("{a}..{b}"));
                 }
             }
+            // scope diagnostics name their variable: the range must be that identifier. Every scope
+            // diagnostic takes exactly one listing (hook H3), in order; syntax errors ("never closed")
+            // may take two, but never occur together with scope diagnostics.
+            let mut diags: Vec<Diag> = es.iter().map(|e| { let (kind, name) = scope_diag(&e.message); Diag { kind, name, range: None } }).collect();
+            if diags.iter().any(|d| matches!(d.kind, DiagKind::AlreadyExists | DiagKind::NotInScope)) {
+                if diags.len() == ranges.len() {
+                    for (d, r) in diags.iter_mut().zip(&ranges) { d.range = Some(*r); }
+                    for d in &diags { check_scope_range(out, text, &toks, d); }
+                } else {
+                    out.hit("C15", "scope-diagnostics-and-listed-ranges-do-not-pair-up", text, &format!("{} diagnostics, {} listings", diags.len(), ranges.len()));
+                }
+            }
+            seen = Seen::Rejected(diags);
             format!("err {} {}", es.len(), ranges.iter().map(|(a, b)| format!("({a} {b})")).collect::<Vec<_>>().join(" "))
         }
     };
@@ -131,6 +203,7 @@ pub fn check_text(out: &mut Out, names: &mut Ser, text: &str, ctx: &[&str], with
     if with_stats {
         out.case(&format!("parsestats {ts}"), &stats.iter().map(|(h, m)| format!("{h}:{m}")).collect::<Vec<_>>().join(" "));
     }
+    seen
 }
 
 const SOUP: [&str; 30] = ["*", "bool", ":", "==", "else", "=", "false", ">", ">=", "x", "if", "int", "1", "{", "(", "<", "<=", "-", "+", "}", ")", "/", "\n", ";", "then", "=>", "->", "true", "type", "y"];
@@ -139,6 +212,9 @@ pub fn run(out: &mut Out, tier: &str, seed: u64) {
     let mut names = Ser::new();
     names.name("_");
     let mut rng = Rng::new(seed ^ 0xC07);
+    // family "scope-errors": name clashes and unbound names at every binder form and position, with
+    // valid twins and multi-diagnostic programs (deterministic, exhaustive over its templates, both tiers)
+    crate::scope_family::run(out, &mut names);
     // corpus
     if let Ok(rd) = std::fs::read_dir(format!("{}/corpus", crate::out::verif_root())) {
         let mut files: Vec<_> = rd.filter_map(|e| e.ok()).map(|e| e.path()).filter(|p| p.extension().map_or(false, |x| x == "g")).collect();
